@@ -18,7 +18,8 @@ from . import vsim
 
 TRACE = True
 TRUSTED = [
-    "C10: asyncio timer semantics are replaced by harness/vsim.py (a timer fires at exactly its due millisecond, same-instant order seed-permuted)",
+    "C10: asyncio timer semantics are replaced by harness/vsim.py (a timer fires at exactly its due millisecond unless the case asks for "
+    "seeded lateness; timers due at the same instant run in the order they were armed, as in asyncio)",
     "C10: sub-millisecond float effects (clock resolution 1e-6 ms, ttl*1000*0.1) are not modelled; the harness flags any non-integral schedule time",
     "C10: heapq is abstracted as an ascending list (pop a minimum); cancelled heap entries tied in `when` with an entry both sides hold may differ (heapq layout)",
     "C10: which reschedule/cancel call _ServiceBrowserBase.async_update_records makes for a record update (old is None / expired / else) is not modelled: "
@@ -323,6 +324,33 @@ def heaps_agree(impl_heap, model_heap):
 # stage O: the property's sentence on the implementation's observations (browser stream)
 
 
+def kept_schedule(obs, alias, created):
+    """The time `k` of the scheduler's entry for `alias` (lower-cased instance name) if the pointer update for the record created at
+    `created` left that entry where it was (churn rule); None if the update scheduled a new entry, or cannot be found.
+    Read from the block log (dict `_next_scheduled_for_alias` before and after the `reschedule_ptr_first_refresh` block): used only to
+    recognise the input class of the known finding `C10:refresh-late-kept-schedule`, never to widen a bound."""
+    def entry(state):
+        for item in state["dict"]:
+            key, val = item.split("=", 1)
+            if bytes.fromhex(key).decode("utf-8", "surrogatepass") == alias:
+                f = val.split(",")
+                return int(f[4]), f[5]
+        return None
+
+    evs = obs.get("events") or []
+    for i, e in enumerate(evs):
+        tok = e["line"].split()
+        if tok[0] != "P" or i == 0:
+            continue
+        if bytes.fromhex(tok[2]).decode("utf-8", "surrogatepass").lower() != alias or int(tok[5]) != created:
+            continue
+        before, after = entry(evs[i - 1]["state"]), entry(e["state"])
+        if before is not None and after is not None and before == after and after[1] == "0":
+            return after[0]
+        return None
+    return None
+
+
 def oracle(case, obs):
     """-> list of (sig, what)"""
     bad = []
@@ -421,8 +449,11 @@ def oracle(case, obs):
                 continue
             expire = c + 1000 * T
             w = c + 750 * T
-            # the schedule may be the one kept from an earlier sighting when that lies within `delay` (churn rule)
-            lo, hi = (w, w + delay) if nlearn == 1 else (w - delay, w + 2 * delay)
+            # The English: "queried for at about 75 percent of its TTL ... at most the configured inter-query delay late".  A record
+            # seen once: [w, w + delay].  A refreshed record may keep the schedule of the earlier sighting (churn rule); "about" is read
+            # as admitting a query up to `delay` EARLY then, the lateness bound stays one delay: [w - delay, w + delay]  (reading stated
+            # in Props/C10.lean and the manifest; the bound the code actually meets is w + 2*delay, `C10_refreshed_chain`).
+            lo, hi = (w, w + delay) if nlearn == 1 else (w - delay, w + delay)
             if (ty, alias) in warm and ivs[0][0] == c and w <= t_start + 120 + 14000:
                 # a cached record whose 75% time is already past (or falls into the start-up phase) when the browser is created: its
                 # entry is due at the first running-phase pass, one delay after the fourth start-up query; the +10% steps follow
@@ -430,6 +461,19 @@ def oracle(case, obs):
             if hi >= min(t_end, expire):
                 continue
             cand = hits(ty, lo, hi)
+            if not cand and nlearn > 1:
+                # FINDING (second review): the entry kept from the earlier sighting lies at k in (w, w + delay] and a pass for another
+                # type inside (k - delay, k) pushes the query to (k, k + delay] -- up to 2*delay after w.  Recognised only for exactly
+                # that input class: the scheduler's own entry for the alias was left where it was by this refresh, at such a k, and
+                # the query comes no later than k + delay (`C10_refreshed_one_delay_partial` has the complementary hypothesis).
+                k = kept_schedule(obs, alias, c)
+                late = hits(ty, w + delay + 1, k + delay) if (k is not None and w < k <= w + delay and k + delay < min(t_end, expire)) else []
+                if late:
+                    bad.append(("C10:refresh-late-kept-schedule",
+                                "refreshed record %s (TTL %d, refreshed at %d ms, 75%% at %d ms): the schedule of the earlier sighting (%d ms, %d ms after the new "
+                                "75%% time) was kept and another pass delayed it: first query for %s at %d ms, %d ms late (delay %d)"
+                                % (alias, T, c - T0, w - T0, k - T0, k - w, ty, late[0] - T0, late[0] - w, delay)))
+                    cand = late
             if not cand:
                 bad.append(("C10:no-refresh-query", "record %s (TTL %d learned at %d ms) got no query for %s in [%d, %d]"
                             % (alias, T, c - T0, ty, lo - T0, hi - T0)))
